@@ -17,7 +17,7 @@ Ltac break_step H :=
 
 Ltac unfold_steps H :=
   unfold step_api, step_stop, step_state, step_procend, step_own, step_shutdown, step_ordered_go,
-         step_env, step_reg, do_spawn in H.
+         step_env, step_reg, do_spawn, set_stage in H.
 
 (* split boolean conjunctions in hypotheses *)
 Ltac split_andb :=
